@@ -1,4 +1,5 @@
 import Octo.Spec.Kleene
+import Octo.Model.LogicTypecheck
 /-!
   Helper lemmas for C11: the lazy evaluation loops equal the loops over argument outcomes, Kleene algebra on
   `Tri`, facts about `Null.Is`, `nullCheck`, `nullCheckIdx`, `findField`.
@@ -368,5 +369,32 @@ theorem findField_range (name : Nat) (fields : List Nat) : ∀ k i,
 
 theorem toP_ty (t : TTree) : t.toP.ty = t.ty := by
   cases t <;> rfl
+
+theorem and3_true_right (t : Tri) : and3 t (some true) = t := by
+  rcases t with _ | _ | _ <;> rfl
+theorem or3_false_right (t : Tri) : or3 t (some false) = t := by
+  rcases t with _ | _ | _ <;> rfl
+
+theorem findField_range' (name : Nat) : ∀ (len s j : Nat), s ≤ name → name < s + len →
+    findField name j (List.range' s len) = some (j + (name - s)) := by
+  intro len
+  induction len with
+  | zero => intro s j h1 h2; omega
+  | succ len ih =>
+    intro s j h1 h2
+    simp only [List.range'_succ, findField]
+    by_cases h : s = name
+    · subst h; simp
+    · have : (s == name) = false := by simp [h]
+      simp only [this]
+      rw [ih (s + 1) (j + 1) (by omega) (by omega)]
+      simp only [Bool.false_eq_true, if_false, Option.some.injEq]; omega
+
+theorem findField_of_range (name k : Nat) (h : name < k) : findField name 0 (List.range k) = some name := by
+  rw [List.range_eq_range', findField_range' name k 0 0 (by omega) (by omega)]
+  simp
+
+theorem nullIs_toTy (bt : BTy) : nullIs bt.toTy = bt.nullable := by
+  cases bt <;> decide
 
 end Octo.Logic
